@@ -494,6 +494,8 @@ def align_variable_names_with_convention(
     }
     # Parameters are not renamed, so neither are the assignments to them in the function body
     preserve |= {node.arg for node in core.walk(ast_tree, ast.arg)}
+    # "except Error as name" binds a name that is not renamed either, nor are the reads of it
+    preserve |= {node.name for node in core.walk(ast_tree, ast.ExceptHandler) if node.name}
     # Definitions inside if / try / with / loop blocks are not renamed, so neither are the
     # definitions of the same name beside them (def log ... if DEBUG: def log ...)
     scope_types = (ast.Module, ast.FunctionDef, ast.AsyncFunctionDef, ast.ClassDef)
@@ -748,8 +750,15 @@ def undefine_unused_variables(source: str, preserve: Collection[str] = frozenset
         for node in core.filter_nodes(scope.body, (ast.Assign, ast.AnnAssign, ast.AugAssign)):
             class_body_blacklist.update(parsing.assignment_targets(node))
 
+    # `_` is an ordinary variable for a program that reads it (`_ = gettext.gettext; _("text")`)
+    underscore_in_use = "_" in preserve or any(
+        core.walk(root, ast.Name(id="_", ctx=(ast.Load, ast.Del)))
+    )
+
     yielded = set()
     for name in _iter_unused_names(root):
+        if underscore_in_use:
+            break  # An unused variable renamed to _ would take that variable's place
         if (
             name.id not in preserve
             and name.id != "_"
@@ -759,8 +768,7 @@ def undefine_unused_variables(source: str, preserve: Collection[str] = frozenset
             yield name, ast.Name(id="_")
             yielded.add(name)
 
-    # `_` is an ordinary variable for a program that reads it (`_ = gettext.gettext; _("text")`)
-    if "_" in preserve or any(core.walk(root, ast.Name(id="_", ctx=(ast.Load, ast.Del)))):
+    if underscore_in_use:
         return
 
     for node in core.walk(
